@@ -1,27 +1,39 @@
-/* Native replay for the hwloc_topology_allow error-path clause of C02 (finding F3):
- * a failing hwloc_topology_allow() must leave the allowed sets unchanged.
- * usage: allow_replay  (uses a synthetic topology; exits 1 when the clause is violated) */
+/* Native replay for the hwloc_topology_allow clauses of C02 on the real library: the verifier's counterexample
+ * fixes the clause; the inputs (flag word, NULL / intersecting / non-intersecting cpuset and nodeset) form a small finite
+ * space which is enumerated on a synthetic topology loaded with INCLUDE_DISALLOWED.
+ * exit 1 + "REPRODUCED: ..." when a failing call changed an allowed set, or an invalid combination was accepted. */
 #include <hwloc.h>
 #include <stdio.h>
+#include <string.h>
 #include <errno.h>
 int main(void)
 {
-  hwloc_topology_t t; hwloc_bitmap_t cs = hwloc_bitmap_alloc(), ns = hwloc_bitmap_alloc(), before_c, before_n; int rc, bad = 0;
-  hwloc_topology_init(&t);
-  hwloc_topology_set_flags(t, HWLOC_TOPOLOGY_FLAG_INCLUDE_DISALLOWED);
-  hwloc_topology_set_synthetic(t, "node:2 pu:2");
-  hwloc_topology_load(t);
-  before_c = hwloc_bitmap_dup(hwloc_topology_get_allowed_cpuset(t));
-  before_n = hwloc_bitmap_dup(hwloc_topology_get_allowed_nodeset(t));
-  hwloc_bitmap_only(cs, 0);      /* intersects the topology cpuset */
-  hwloc_bitmap_only(ns, 99);     /* does not intersect the topology nodeset */
-  errno = 0;
-  rc = hwloc_topology_allow(t, cs, ns, HWLOC_ALLOW_FLAG_CUSTOM);
-  if (rc == -1 && (!hwloc_bitmap_isequal(before_c, hwloc_topology_get_allowed_cpuset(t)) || !hwloc_bitmap_isequal(before_n, hwloc_topology_get_allowed_nodeset(t)))) {
-    char *a, *b; hwloc_bitmap_asprintf(&a, before_c); hwloc_bitmap_asprintf(&b, hwloc_topology_get_allowed_cpuset(t));
-    printf("REPRODUCED: hwloc_topology_allow(CUSTOM, cpuset={0}, nodeset={99}) returned -1 (errno %d) but the allowed cpuset changed from %s to %s\n", errno, a, b);
-    bad = 1;
+  static const char *csets[] = { NULL, "0", "0-3", "100", "100-" };            /* NULL, intersecting x2, not intersecting x2 */
+  static const char *nsets[] = { NULL, "0", "0-1", "5", "99", "2-" };          /* topology nodeset is {0,1}: "5" is a PU index but no node */
+  unsigned long flags; unsigned ci, ni; int bad = 0;
+  for (flags = 0; flags <= 8 && !bad; flags++) for (ci = 0; ci < 5 && !bad; ci++) for (ni = 0; ni < 6 && !bad; ni++) {
+    hwloc_topology_t t; hwloc_bitmap_t cs = NULL, ns = NULL, bc, bn; int rc, cs_ok, ns_ok, expect_fail;
+    hwloc_topology_init(&t); hwloc_topology_set_flags(t, HWLOC_TOPOLOGY_FLAG_INCLUDE_DISALLOWED);
+    hwloc_topology_set_synthetic(t, "node:2 core:2 pu:2"); hwloc_topology_load(t);
+    if (csets[ci]) { cs = hwloc_bitmap_alloc(); hwloc_bitmap_list_sscanf(cs, csets[ci]); }
+    if (nsets[ni]) { ns = hwloc_bitmap_alloc(); hwloc_bitmap_list_sscanf(ns, nsets[ni]); }
+    bc = hwloc_bitmap_dup(hwloc_topology_get_allowed_cpuset(t)); bn = hwloc_bitmap_dup(hwloc_topology_get_allowed_nodeset(t));
+    cs_ok = !cs || hwloc_bitmap_intersects(cs, hwloc_topology_get_topology_cpuset(t));
+    ns_ok = !ns || hwloc_bitmap_intersects(ns, hwloc_topology_get_topology_nodeset(t));
+    errno = 0;
+    rc = hwloc_topology_allow(t, cs, ns, flags);
+    expect_fail = (flags != HWLOC_ALLOW_FLAG_ALL && flags != HWLOC_ALLOW_FLAG_LOCAL_RESTRICTIONS && flags != HWLOC_ALLOW_FLAG_CUSTOM)
+                  || ((flags == HWLOC_ALLOW_FLAG_ALL || flags == HWLOC_ALLOW_FLAG_LOCAL_RESTRICTIONS) && (cs || ns))
+                  || (flags == HWLOC_ALLOW_FLAG_CUSTOM && (!cs_ok || !ns_ok));
+    if (rc == -1 && (!hwloc_bitmap_isequal(bc, hwloc_topology_get_allowed_cpuset(t)) || !hwloc_bitmap_isequal(bn, hwloc_topology_get_allowed_nodeset(t)))) {
+      printf("REPRODUCED: hwloc_topology_allow(flags=%#lx, cpuset=%s, nodeset=%s) returned -1 (errno %d) but an allowed set changed\n", flags, csets[ci] ? csets[ci] : "NULL", nsets[ni] ? nsets[ni] : "NULL", errno);
+      bad = 1;
+    } else if (expect_fail && flags != HWLOC_ALLOW_FLAG_LOCAL_RESTRICTIONS && (rc != -1 || errno != EINVAL)) {
+      printf("REPRODUCED: hwloc_topology_allow(flags=%#lx, cpuset=%s, nodeset=%s) returned %d (errno %d), expected -1/EINVAL\n", flags, csets[ci] ? csets[ci] : "NULL", nsets[ni] ? nsets[ni] : "NULL", rc, errno);
+      bad = 1;
+    }
+    hwloc_topology_destroy(t);
   }
-  if (!bad) printf("NOT-REPRODUCED (rc=%d)\n", rc);
+  if (!bad) printf("NOT-REPRODUCED\n");
   return bad;
 }
